@@ -104,15 +104,17 @@ def run(ctx):
     if crash is not None:
         died, evidence, lines = lc.run_expect_crash(ctx, crash)
         ctx.traces += 1
-        if not died:
+        if died:
+            sig = lc.signature0("NoCrash", crash, None)
+            sig["cause"] = "all-descriptors-claimed"
+            sig["evidence"] = evidence
+            ctx.add_violation(sig, replay_obj={"scenario": lc.harness_view(crash), "hist": crash["hist"], "trace": lines[-60:]})
+        elif not ctx.violations:
             raise vlib.Inconclusive("MODEL-UNREPRODUCED Code_AllClaimedCrashes: the core survived the scenario of TLC's counterexample")
-        sig = lc.signature0("NoCrash", crash, None)
-        sig["cause"] = "all-descriptors-claimed"
-        sig["evidence"] = evidence
-        ctx.add_violation(sig, replay_obj={"scenario": lc.harness_view(crash), "hist": crash["hist"], "trace": lines[-60:]})
-    # a model counterexample that the real core does not reproduce is a modelling error
+    # a model counterexample that the real core does not reproduce is a modelling error (unless the run found
+    # violations that are not known findings: those are the verdict)
     hit = {v.get("scn") for v in ctx.violations} | set(ctx.extra.get("known_scn", []))
     for i, (dev, inv) in expected.items():
-        if i not in hit:
+        if i not in hit and not ctx.violations:
             raise vlib.Inconclusive("MODEL-UNREPRODUCED %s: the scenario of TLC's counterexample (%s) ran clean on the real core"
                                     % (dev, inv))
